@@ -71,7 +71,7 @@ func init() {
 
 	vlib.Register(&vlib.Check{
 		ID: "C33", Engine: "E2",
-		Rule: "producer {harness Go builtin vw33 writing exact bytes O to stdout then E to stderr, O,E in {empty, x, 00 ff, 3 lines, (thorough) 128 KiB}; murex function `{ out O; err E }`; builtin `out O`; builtin `err E` (text payloads {one word, 3 lines})} x stdout token {none <out> <err> <null>} x stderr token {none <!err> <!out> <!null>} (both orders, tokens directly after the command name) x position {L last command of the block; S followed by `; out tail`; SC followed by `; vcap33` (a command that records its stdin: must receive nothing); T last command inside try{}; M piped `-> vcap33` (records what the next stage receives); MS piped and followed by another statement; F piped `|> file` (file absent/empty/old); A piped `>> file`} plus (file part) every sequence of up to 2 (thorough 3) writes {|>, >>} x payload onto a file that is absent / empty / holds `old\\n`; the block's stdout, stderr, the next stage's stdin and the file bytes are compared with the routing the statement gives (bytes of O and E that meet in one destination may arrive in either order); non-trivial = at least one token other than the defaults <out>/<!err> is present, or a file is written",
+		Rule: "producer {harness Go builtin vw33 writing exact bytes O to stdout then E to stderr, O,E in {empty, x, 00 ff, 3 lines, (thorough) 128 KiB}; murex function `{ out O; err E }`; builtin `out O`; builtin `err E` (text payloads {one word, 3 lines})} x stdout token {none <out> <err> <null>} x stderr token {none <!err> <!out> <!null>} (both orders, tokens directly after the command name) x position {L last command of the block; S followed by `; out tail`; SC followed by `; vcap33` (a command that records its stdin: must receive nothing); T last command inside try{}; M piped `-> vcap33` (records what the next stage receives); MS piped and followed by another statement; F piped `|> file` (file absent/empty/old); A piped `>> file`} plus (file part) every sequence of up to 2 (thorough 3) writes {|>, >>} x payload onto a file that is absent / empty / holds `old\\n`, and every nested append `function f { P >> file; Q }; f >> file` (the producer of an append appends to the same file first); the block's stdout, stderr, the next stage's stdin and the file bytes are compared with the routing the statement gives (bytes of O and E that meet in one destination may arrive in either order); non-trivial = at least one token other than the defaults <out>/<!err> is present, or a file is written",
 		Run:    run,
 		Replay: replay,
 		Assumptions: []string{
@@ -355,13 +355,23 @@ func enumerate(quick bool, fn func(k kase) bool) {
 type fileSeq struct {
 	prev int   // index into prevContents
 	ops  []int // op = payload*2 + (0 truncate | 1 append)
+	// nested: two appends, the first issued by the producer of the second (`function f { P >> file; Q };
+	// f >> file`): the outer >> is already open when the inner one grows the file, and must still write at
+	// the end the file has when Q arrives
+	nested bool
 }
 
 func (s fileSeq) witness() string {
+	if s.nested {
+		return "FILE-NESTED prev=" + []string{"absent", "empty", "old"}[s.prev] + ": " + s.program()
+	}
 	return "FILE prev=" + []string{"absent", "empty", "old"}[s.prev] + ": " + s.program()
 }
 
 func (s fileSeq) program() string {
+	if s.nested {
+		return fmt.Sprintf("function vn33 { vw33 %d 0 >> f33; vw33 %d 0 }; vn33 >> f33", s.ops[0]/2, s.ops[1]/2)
+	}
 	var parts []string
 	for _, op := range s.ops {
 		tok := "|>"
@@ -396,11 +406,20 @@ func enumerateFiles(quick bool, fn func(s fileSeq) bool) {
 	for prev := range prevContents {
 		cont := true
 		vlib.Seqs(np*2, 1, maxLen, func(idx []int) bool {
-			cont = fn(fileSeq{prev, append([]int{}, idx...)})
+			cont = fn(fileSeq{prev: prev, ops: append([]int{}, idx...)})
 			return cont
 		})
 		if !cont {
 			return
+		}
+	}
+	for prev := range prevContents {
+		for p := 1; p < np; p++ {
+			for q := 1; q < np; q++ {
+				if !fn(fileSeq{prev, []int{p*2 + 1, q*2 + 1}, true}) {
+					return
+				}
+			}
 		}
 	}
 }
